@@ -18,6 +18,15 @@ func c12be64(b []byte) uint64 { return uint64(c12be32(b))<<32 | uint64(c12be32(b
 // free 8-bit symbol (a superset of the 5-bit values the key schedule produces).
 func c12SymCipher() *Cipher {
 	c := &Cipher{}
+	// the round-function S-boxes S1..S4 (package variable sBox[0..3]) become uninterpreted
+	// functions byte -> uint32 as well: inversion and the RFC round structure hold for ANY table
+	// contents, and counterexamples for broken variants are then easy for the solver to find
+	for i := 0; i < 256; i++ {
+		sBox[0][i] = verifrt.UF32("cast_s1", uint32(i))
+		sBox[1][i] = verifrt.UF32("cast_s2", uint32(i))
+		sBox[2][i] = verifrt.UF32("cast_s3", uint32(i))
+		sBox[3][i] = verifrt.UF32("cast_s4", uint32(i))
+	}
 	for i := range c.masking {
 		c.masking[i] = verifrt.U32()
 		c.rotate[i] = verifrt.U8()
